@@ -75,6 +75,7 @@ struct call_ctx
     bool dists = false;      // run the integrand with one distribution (the other accumulator specialisation)
     int vexp = 0;            // all integrand values are multiplied by 2^vexp (to reach the subnormal range)
     int jac_pow = 0;
+    std::size_t md = 0;      // multi channel: number of coordinates (map dimensions) if different from the number of random numbers
 
     value_spec const& spec() const { return plan[call % plan.size()]; }
 
@@ -380,10 +381,10 @@ inline void run_mc(call_ctx<T>& c, E const& engine, std::vector<T> const& weight
         c.last_draws = cnt().draws;
         E before = chk.generator();
         if (c.dists)
-            chk = hep::multi_channel(hep::make_multi_channel_integrand<T>(traced_mc_fn<T>{&c}, c.cfg.d, traced_map<T>{&c}, c.cfg.d, n,
+            chk = hep::multi_channel(hep::make_multi_channel_integrand<T>(traced_mc_fn<T>{&c}, c.cfg.d, traced_map<T>{&c}, c.md ? c.md : c.cfg.d, n,
                 hep::make_dist_params<T>(3, T(), T(1), "x")), std::vector<std::size_t>{N}, chk, hep::callback<C>(hep::callback_mode::silent));
         else
-        chk = hep::multi_channel(hep::make_multi_channel_integrand<T>(traced_mc_fn<T>{&c}, c.cfg.d, traced_map<T>{&c}, c.cfg.d, n),
+        chk = hep::multi_channel(hep::make_multi_channel_integrand<T>(traced_mc_fn<T>{&c}, c.cfg.d, traced_map<T>{&c}, c.md ? c.md : c.cfg.d, n),
             std::vector<std::size_t>{N}, chk, hep::callback<C>(hep::callback_mode::silent));
         E expect = before;
         expect.discard((unsigned long long) N * (c.cfg.d + 1) * hep::random_number_usage<T, E>());
